@@ -36,6 +36,7 @@ def run(ctx) -> None:
     ctx.reuse("C20.composition-init", c05.default_name)
     ctx.reuse("C20.composition-init", c05.trough_names)
     ctx.guard("C20.naming-guards", naming_guards)
+    ctx.guard("C20.naming-guards", composition_always)
     ctx.guard("C20.trough-args", trough_args)
 
 
@@ -258,6 +259,29 @@ def history_init(ctx) -> None:
     ctx.rep.check(got.get("_labels") is True, rule, f"{f.qualname}/_labels", "labels start with exactly ['initial']", "the label list is not initialised as ['initial']", where=f.where())
 
 
+def composition_always(ctx) -> None:
+    """The component names are validated for every labware: Labware.__init__ calls get_initial_composition on every path that
+    returns normally (a constructor that skips it - e.g. for an all-empty labware - accepts names for empty / unknown wells)."""
+    rule = "C20.naming-guards"
+    f = ctx.prog.require_func("Labware.__init__", rule)
+    fv = ctx.fv(f)
+    calls = [cs for cs in fv.calls() if cs.callee.kind == "func" and cs.callee.func.name == "get_initial_composition"]
+    c = f"{f.qualname}/get_initial_composition"
+    if not calls:
+        ctx.rep.inconclusive(rule, c, "call not found", where=f.where())
+        return
+    ctrl = []
+    for cs in calls:
+        ctrl.append([(fv.cfg.nodes[d].ast, pol) for d, pol in fv.controlling(cs.node, skip_raising=True)])
+    # one unconditional call, or calls on both outcomes of every condition (approximated: some call is unconditional)
+    if any(not cc for cc in ctrl):
+        ctx.rep.holds(rule, c, "called on every path of the constructor", where=f.where(calls[0].call))
+    else:
+        t, pol = ctrl[0][0]
+        ctx.rep.refuted(rule, c, f"get_initial_composition - and with it the validation of the component names - only runs when `{show(t)[:60]}` is {pol}: "
+                        "otherwise names for empty or unknown wells are accepted without a ValueError", where=f.where(calls[0].call))
+
+
 def naming_guards(ctx) -> None:
     rule = "C20.naming-guards"
     f = ctx.prog.require_func("get_initial_composition", rule)
@@ -357,4 +381,28 @@ def trough_args(ctx) -> None:
         ok_n = all(k in nb for k in ("name", "columns", "column_names", "initial_volumes")) and is_name(nb["columns"], "columns") and is_name(nb["name"], "name") and fv.cfg.dominates(names[0].node, sup[0].node)
         cn = b.get("component_names")
         ok_n = ok_n and cn is not None and key(fv.res.resolve(cn, sup[0].node)) == key(fv.res.resolve(names[0].call, names[0].node))
+    if len(names) == 1 and "column_names" in (fv.bind_args(names[0]) or {}):
+        # the caller's per-column names reach the length check as they were given: only None (no names) and a single str are
+        # rewritten - a list that is padded / truncated to the number of columns can no longer be rejected for its length
+        cn_arg = (fv.bind_args(names[0]) or {})["column_names"]
+        for conds, val in fv.alternatives(cn_arg, names[0].node):
+            cc = f"{f.qualname}/column-names[{show(val)[:30]}]"
+            ww = f.where(names[0].call)
+            given = is_name(strip_norm(val), "column_names")
+            none_fill = isinstance(val, ast.BinOp) and isinstance(val.op, ast.Mult) and any(isinstance(x, ast.List) and len(x.elts) == 1 and isinstance(x.elts[0], ast.Constant) and x.elts[0].value is None for x in (val.left, val.right)) \
+                and any(isinstance(c_, ast.Compare) and isinstance(c_.ops[0], ast.Is) and p_ and is_name(c_.left, "column_names") for c_, p_ in conds)
+            single = isinstance(val, ast.List) and len(val.elts) == 1
+            if given or none_fill or single:
+                ctx.rep.holds(rule, cc, "the given names (or the None / single-name defaults) reach the length check", where=ww)
+            elif is_sym(val, "mut"):
+                lname = val.args[0].value
+                stores = [n for n in fv.cfg.nodes if n.kind == "stmt" and isinstance(n.ast, ast.Assign) and isinstance(n.ast.targets[0], ast.Subscript) and is_name(n.ast.targets[0].value, lname)
+                          and any(isinstance(x, ast.Name) and x.id == "column_names" for x in ast.walk(n.ast.value))]
+                if stores:
+                    ctx.rep.refuted(rule, cc, f"the given column names are copied into a list of `columns` entries (`{stmt_key(stores[0].ast)[:60]}`) before their number is checked: "
+                                    "a list with too few names is silently padded instead of raising ValueError", where=f.where(stores[0].ast))
+                else:
+                    ctx.rep.inconclusive(rule, cc, f"cannot tell what `{lname}` holds when it reaches get_trough_component_names", where=ww)
+            else:
+                ctx.rep.inconclusive(rule, cc, f"column names reach the length check as `{show(val)[:60]}`", where=ww)
     ctx.rep.check(ok_n, rule, f"{f.qualname}/component-names", "component names come from get_trough_component_names(name, columns, column_names, initial_volumes)", "component names are not derived by get_trough_component_names from the same columns/volumes", where=f.where())
